@@ -13,6 +13,7 @@
    5. The abstraction from responses to the model's outcome types, used to state the ties. *)
 From Coq Require Import List NArith ZArith Bool.
 From NV Require Import Prelude.Str Prelude.Res Prelude.Utf8 Model.Fs Model.Static Model.CertAuth.
+From NV Require Model.Listing.
 Import ListNotations.
 
 (* ------------------------------------------------------------------ 1. values *)
@@ -22,7 +23,8 @@ Inductive gbody :=
 | GNone
 | GText (t : str)                    (* a string built by the handler itself *)
 | GFile (p : path) (text : str)      (* the result of p.read_text() *)
-| GListing (d : path).               (* the result of generate_directory_listing(d, _) *)
+| GListing (d : path) (base : str). (* the result of generate_directory_listing(d, base): the text is
+                                        Model/Listing.v listing_text _ f d base (Equiv/EquivGemtext.v) *)
 Record gresp := mk_gresp { g_status : Z; g_meta : str; g_body : gbody }.
 
 (* a pathlib.Path built by `base / text` and not resolved yet: resolved base, components still to be walked *)
@@ -155,8 +157,7 @@ Definition m_read_text (f : fs) (p : path) : res gbody :=
   | _ => Err e_os (lit "read")
   end.
 Definition m_listing (f : fs) (d : path) (url_path : str) : res gbody :=
-  if existsb (fun ch => match follow f (d ++ [fst ch]) with None => true | Some _ => false end) (children f d)
-  then Err e_os (lit "stat") else Ok (GListing d).
+  if Listing.has_broken f d then Err e_os (lit "stat") else Ok (GListing d url_path).
 
 (* pathlib's mkdir(parents=True, exist_ok=True) creates the missing ancestors from the top: those before the first
    over-long component exist by the time ENAMETOOLONG is met *)
@@ -228,11 +229,12 @@ Definition norm_resp (r : res gresp) : res gresp :=
   | Err k _ => Err (exc_label k) []
   | OutOfModel => OutOfModel
   end.
-(* the model's outcome as a response: injective *)
-Definition resp_of_sout (o : sout) : res gresp :=
+(* the model's outcome as a response: injective.  url: the request path, which handle() passes to
+   generate_directory_listing as the base of the links *)
+Definition resp_of_sout (url : str) (o : sout) : res gresp :=
   match o with
   | OServe p mime text => Ok (mk_gresp 20 mime (GFile p text))
-  | OListing d => Ok (mk_gresp 20 (lit "text/gemini") (GListing d))
+  | OListing d => Ok (mk_gresp 20 (lit "text/gemini") (GListing d url))
   | OStatus st meta => Ok (mk_gresp st meta GNone)
   | ORaise k => Err k []
   | OOom => OutOfModel
